@@ -527,7 +527,7 @@ func runC06(r *kit.Run) {
 		s.reportTaint = true
 		o.start()
 		defer o.stop()
-		s.runHistory(hooks{bias: 0, blocks: historyLen(r, 20, 45), beforeBuild: o.beforeBuild, onBuilt: o.onBuilt, atEnd: o.atEnd})
+		s.runHistory(hooks{bias: 0, crowd: true, blocks: historyLen(r, 20, 45), beforeBuild: o.beforeBuild, onBuilt: o.onBuilt, atEnd: o.atEnd})
 	})
 }
 
